@@ -1,9 +1,9 @@
 SPECIFICATION Spec
 CONSTANTS
-  Depth = 4
-  Emit = TRUE
-  DepthA = 5
-  Aliased = FALSE
+  Depth = 3
+  Emit = FALSE
+  DepthA = 4
+  Aliased = TRUE
 INVARIANT HandlersRefine
 INVARIANT CreateRefines
 INVARIANT CreateStateAgrees
